@@ -120,6 +120,12 @@ def r2(ctx, F, rid='C14.R2'):
                     dkey = lambda op_: {(o.kind, str(o.key), o.bb, tuple(o.path)) for o in hfl.origins(op_) if o.kind != 'comb'}
                     dst_ok = any(dkey(rt_['args'][1]) == dkey(st['args'][0]) for rb_, rt_ in renames)
                     after = all(hfl.guarded_by(sb, rb_, 'Ok') for rb_, _ in renames)
+                    if not after:
+                        # a rename that happens only on some paths (`if let Some(tmp) = &self.staged { rename(..) }`): what the
+                        # clause needs is that the time is never stamped BEFORE a rename that follows, nor after one that failed
+                        def _err_reaches(rb_):
+                            return any(sb in hfl.cfg.reach(t_) for (s_, t_, lab) in hfl.outcomes(rb_).get('Err', set()))
+                        after = all(not hfl.cfg.can_reach(sb, rb_) and not _err_reaches(rb_) for rb_, _ in renames)
                     ctx.check(pure and dst_ok and after, rid, '%s:set_local_mtime(dst, t)' % fn.split('::')[-1], 'time = the source metadata mtime of the loop path, on the delivered file, after the rename',
                               'the written-out %s sets a modified value / on another path / before the rename (time=%s (%s), dst=%s, after rename=%s)' % (fn.split('::')[-1], pure, why, dst_ok, after), term_loc(hb, sb))
                     inlined_deliveries.append(fn)
